@@ -349,6 +349,7 @@ func c06rRandTable(r *vfRand) (t c06rTable) {
 type c06rUpstream struct {
 	calls  []dns.Question
 	failed int
+	ttl    uint32 // TTL of the scripted records; 0 = 60 s
 }
 
 var _ upstream.Upstream = (*c06rUpstream)(nil)
@@ -359,6 +360,17 @@ func (u *c06rUpstream) Exchange(req *dns.Msg) (resp *dns.Msg, err error) {
 	resp = new(dns.Msg).SetReply(req)
 	base := strings.TrimSuffix(strings.ToLower(q.Name), ".")
 	multi := strings.HasSuffix(base, ".multi")
+	ttl := u.ttl
+	if ttl == 0 {
+		ttl = 60
+	}
+	defer func() {
+		if resp != nil {
+			for _, rr := range resp.Answer {
+				rr.Header().Ttl = ttl
+			}
+		}
+	}()
 	switch {
 	case strings.HasSuffix(base, ".down"):
 		u.failed++
@@ -369,6 +381,9 @@ func (u *c06rUpstream) Exchange(req *dns.Msg) (resp *dns.Msg, err error) {
 		resp.Rcode = dns.RcodeServerFailure
 	case strings.HasSuffix(base, ".nodata"):
 		// NOERROR, no records
+	case multi && q.Qtype == dns.TypeTXT:
+		// one record of a type other than A / AAAA
+		resp.Answer = []dns.RR{&dns.TXT{Hdr: dns.RR_Header{Name: q.Name, Rrtype: dns.TypeTXT, Class: dns.ClassINET, Ttl: 60}, Txt: []string{"c06"}}}
 	case q.Qtype == dns.TypeA:
 		resp.Answer = []dns.RR{&dns.A{Hdr: dns.RR_Header{Name: q.Name, Rrtype: dns.TypeA, Class: dns.ClassINET, Ttl: 60}, A: net.IP{9, 9, 9, 9}}}
 		if multi {
@@ -386,6 +401,11 @@ func (u *c06rUpstream) Address() string { return "c06r.mock" }
 func (u *c06rUpstream) Close() error    { return nil }
 
 func c06rNewServer(t *testing.T, tbl []c06rEntry, enabled bool) (*Server, *c06rUpstream) {
+	return c06rNewServerCache(t, tbl, enabled, 0)
+}
+
+// c06rNewServerCache: cacheSize is Config.CacheSize (bytes; 0 = DNS cache off).
+func c06rNewServerCache(t *testing.T, tbl []c06rEntry, enabled bool, cacheSize uint32) (*Server, *c06rUpstream) {
 	rws := make([]*filtering.LegacyRewrite, len(tbl))
 	for i, e := range tbl {
 		rws[i] = &filtering.LegacyRewrite{Domain: e.dom, Answer: e.ans}
@@ -423,6 +443,7 @@ func c06rNewServer(t *testing.T, tbl []c06rEntry, enabled bool) (*Server, *c06rU
 			UpstreamMode:     UpstreamModeLoadBalance,
 			EDNSClientSubnet: &EDNSClientSubnet{Enabled: false},
 			ClientsContainer: EmptyClientsContainer{},
+			CacheSize:        cacheSize,
 		},
 		ConfigModified: func() {},
 		ServePlainDNS:  true,
@@ -431,6 +452,9 @@ func c06rNewServer(t *testing.T, tbl []c06rEntry, enabled bool) (*Server, *c06rU
 		t.Fatalf("Prepare: %v", err)
 	}
 	ups := &c06rUpstream{}
+	if cacheSize != 0 {
+		ups.ttl = 3600 // nothing expires within a history, however slow the machine
+	}
 	s.conf.UpstreamConfig.Upstreams = []upstream.Upstream{ups}
 	t.Cleanup(func() { f.Close() })
 	return s, ups
@@ -554,11 +578,16 @@ func c06rExcOtherFamilyShadows(tbl []c06rEntry, name string, qt uint16) bool {
 func c06rAddrSource(tbl []c06rEntry, final string, qt uint16, a netip.Addr) (ok bool, kind, msg string) {
 	same := func(ip netip.Addr) bool { return ip == a || ip.Unmap() == a.Unmap() && !ip.Is4() && !a.Is4() }
 	var cand []c06rEntry
-	anyExact, maxLen, excExactAny := false, 0, ""
+	anyExact, maxLen, excExactAny, excWild, excWildLen := false, 0, "", "", 0
 	for _, e := range tbl {
 		d := strings.ToLower(e.dom)
-		if (e.ans == "A" || e.ans == "AAAA") && d == final && !c06rIsWild(d) {
-			excExactAny = e.dom + " -> " + e.ans
+		if (e.ans == "A" || e.ans == "AAAA") && c06rMatches(e.dom, final) {
+			switch {
+			case !c06rIsWild(d):
+				excExactAny = e.dom + " -> " + e.ans
+			case len(d) > excWildLen:
+				excWild, excWildLen = e.dom+" -> "+e.ans, len(d)
+			}
 		}
 		ip, err := netip.ParseAddr(e.ans)
 		if err != nil || ip.Is4() != (qt == dns.TypeA) || !c06rMatches(e.dom, final) {
@@ -568,13 +597,14 @@ func c06rAddrSource(tbl []c06rEntry, final string, qt uint16, a netip.Addr) (ok 
 		anyExact = anyExact || d == final
 		maxLen = max(maxLen, len(e.dom))
 	}
-	found, precise, exact := false, false, false
+	found, precise, exact, srcLen := false, false, false, 0
 	for _, e := range cand {
 		if ip, _ := netip.ParseAddr(e.ans); same(ip) {
 			found = true
 			isEx := strings.ToLower(e.dom) == final
 			precise = precise || anyExact && isEx || !anyExact && len(e.dom) == maxLen
 			exact = exact || isEx
+			srcLen = max(srcLen, len(e.dom))
 		}
 	}
 	switch {
@@ -584,6 +614,8 @@ func c06rAddrSource(tbl []c06rEntry, final string, qt uint16, a netip.Addr) (ok 
 		return false, "precedence", fmt.Sprintf("address %s for %q comes from a shadowed (less specific) entry", a, final)
 	case excExactAny != "" && !exact:
 		return false, "precedence", fmt.Sprintf("address %s for %q comes from a wildcard entry although the exact entry %s exists (an exact entry shadows wildcard entries; an \"A\"/\"AAAA\" entry lets only that type pass)", a, final, excExactAny)
+	case !exact && excWildLen > srcLen:
+		return false, "precedence", fmt.Sprintf("address %s for %q comes from a wildcard less specific than the entry %s (the most specific wildcard wins)", a, final, excWild)
 	}
 	return true, "", ""
 }
@@ -902,5 +934,10 @@ func TestVerifC06Resp(t *testing.T) {
 		if hung {
 			hungTables++
 		}
+	}
+
+	// Histories against servers with the DNS cache on (zz_verif_C06_cache_test.go).
+	if hungTables < 2 {
+		c06rCacheStream(t, out, rnd.Fork(0xCAC4E))
 	}
 }
